@@ -151,7 +151,7 @@ def main():
         sp = os.path.join(wd, "progs.json")
         json.dump([spec_program(p) for p in progs], open(sp, "w"))
         with open(os.path.join(wd, "O.cfg"), "w") as f:
-            f.write('SPECIFICATION OSpec\nCONSTANTS\n  Actor = {"a1", "r1", "r2", "r3"}\n  Client = {"main"}\n  Dev = {}\nINVARIANTS Emit C01 C02 C03 C04 C08 C17\nCHECK_DEADLOCK FALSE\n')
+            f.write('SPECIFICATION OSpec\nCONSTANTS\n  Actor = {"a1", "r1", "r2", "r3"}\n  Client = {"main"}\n  Dev = {}\n  Profile = "debug"\nINVARIANTS Emit C01 C02 C03 C04 C08 C17\nCHECK_DEADLOCK FALSE\n')
         rc, out = vlib.sh(vlib.tlc_cmd("O.cfg", "Outcome.tla", os.path.join(wd, "md"), 8, ("-Xmx8g", "-Xss64m")), cwd=wd, env={"PROGS": sp}, timeout=2400)
         if "No error has been found" not in out:
             v = re.search(r"Invariant (\w+) is violated", out)
